@@ -49,23 +49,23 @@ pub fn world() -> World {
 // ---------------------------------------------------------------- reference terminal
 
 #[derive(Clone, Debug, PartialEq)]
-struct TCell {
-    ch: char,
-    face: Face,
+pub(crate) struct TCell {
+    pub(crate) ch: char,
+    pub(crate) face: Face,
     /// right half of a wide character
-    cont: bool,
+    pub(crate) cont: bool,
     /// fragment of an image (cell personality): content, dy, dx
-    frag: Option<(u64, usize, usize)>,
+    pub(crate) frag: Option<(u64, usize, usize)>,
 }
 
 impl TCell {
-    fn blank() -> Self {
+    pub(crate) fn blank() -> Self {
         TCell { ch: ' ', face: Face::default(), cont: false, frag: None }
     }
 }
 
 #[derive(Clone, Debug, PartialEq)]
-struct Placement {
+pub(crate) struct Placement {
     content: u64,
     id: Position,
     at: Position,
@@ -73,26 +73,26 @@ struct Placement {
 }
 
 #[derive(Clone)]
-struct Screen {
-    h: usize,
-    w: usize,
-    ppc: Size,
-    grid: Vec<TCell>,
-    cursor: Position,
-    face: Face,
-    layered: bool,
-    placements: Vec<Placement>,
+pub(crate) struct Screen {
+    pub(crate) h: usize,
+    pub(crate) w: usize,
+    pub(crate) ppc: Size,
+    pub(crate) grid: Vec<TCell>,
+    pub(crate) cursor: Position,
+    pub(crate) face: Face,
+    pub(crate) layered: bool,
+    pub(crate) placements: Vec<Placement>,
 }
 
 #[derive(Clone, Debug, PartialEq)]
-enum Look {
+pub(crate) enum Look {
     /// blank: effective background (fg when reversed), underline, strike
     Blank { reversed: bool, color: Option<RGBA>, underline: UnderlineStyle, strike: bool },
     Full(Face),
 }
 
 #[derive(Clone, Debug, PartialEq)]
-enum Disp {
+pub(crate) enum Disp {
     Text(char, Look),
     WideRight(char, Look),
     Img(u64, usize, usize),
@@ -114,7 +114,7 @@ fn look(ch: char, face: Face) -> Look {
 }
 
 impl Screen {
-    fn new(size: TerminalSize, layered: bool) -> Self {
+    pub(crate) fn new(size: TerminalSize, layered: bool) -> Self {
         let h = size.cells.height;
         let w = size.cells.width;
         Screen {
@@ -129,7 +129,7 @@ impl Screen {
         }
     }
 
-    fn break_wide(&mut self, r: usize, c: usize) {
+    pub(crate) fn break_wide(&mut self, r: usize, c: usize) {
         let idx = r * self.w + c;
         if self.grid[idx].cont {
             // orphaned left half
@@ -189,7 +189,7 @@ impl Screen {
         }
     }
 
-    fn execute(&mut self, cmd: &TerminalCommand) {
+    pub(crate) fn execute(&mut self, cmd: &TerminalCommand) {
         match cmd {
             TerminalCommand::Char(c) => self.put(*c),
             TerminalCommand::EraseChars(n) => self.erase_chars(*n),
@@ -229,7 +229,7 @@ impl Screen {
         }
     }
 
-    fn display(&self) -> Vec<Disp> {
+    pub(crate) fn display(&self) -> Vec<Disp> {
         let mut out: Vec<Disp> = self
             .grid
             .iter()
@@ -256,7 +256,7 @@ impl Screen {
         out
     }
 
-    fn scribble(&mut self, src: &mut Src) {
+    pub(crate) fn scribble(&mut self, src: &mut Src) {
         // arbitrary text left on the screen (shell output, reflow after resize, ...)
         let n = src.draw((self.h * self.w) as u32 + 1);
         for _ in 0..n {
@@ -274,11 +274,11 @@ impl Screen {
     }
 }
 
-fn rgb(r: u8, g: u8, b: u8) -> Option<RGBA> {
+pub(crate) fn rgb(r: u8, g: u8, b: u8) -> Option<RGBA> {
     Some(RGBA::new(r, g, b, 255))
 }
 
-const FACES_POOL: &[fn() -> Face] = &[
+pub(crate) const FACES_POOL: &[fn() -> Face] = &[
     Face::default,
     || Face::default().with_bg(rgb(200, 10, 10)),
     || Face::new(rgb(10, 200, 10), rgb(10, 10, 200), FaceAttrs::EMPTY),
@@ -539,7 +539,7 @@ fn make_glyph(rows: usize, cols: usize) -> Glyph {
 }
 
 /// surface snapshot: what the application drew for this frame
-type Snapshot = SurfaceOwned<Cell>;
+pub(crate) type Snapshot = SurfaceOwned<Cell>;
 
 fn draw_frame(src: &mut Src, pools: &Pools, size: TerminalSize, surf: &mut dyn FnMut(Position, Cell)) -> u64 {
     let h = size.cells.height;
@@ -697,7 +697,7 @@ fn describe(disp: &Disp) -> String {
 
 /// Compare what the screen shows with the drawn surface (direct) and with a from-scratch
 /// render of the same surface on a blank terminal of the same personality.
-fn check_screen(screen: &Screen, snapshot: &Snapshot, size: TerminalSize, context: &str, features: &str) -> WorldResult {
+pub(crate) fn check_screen(screen: &Screen, snapshot: &Snapshot, size: TerminalSize, context: &str, features: &str) -> WorldResult {
     let shown = screen.display();
     let w = screen.w;
     // ---- direct
@@ -773,7 +773,7 @@ fn check_screen(screen: &Screen, snapshot: &Snapshot, size: TerminalSize, contex
     Ok(())
 }
 
-fn snapshot_of(surf: &impl Surface<Item = Cell>) -> Snapshot {
+pub(crate) fn snapshot_of(surf: &impl Surface<Item = Cell>) -> Snapshot {
     let mut snap = SurfaceOwned::new(surf.size());
     for r in 0..surf.height() {
         for c in 0..surf.width() {
@@ -991,7 +991,7 @@ fn run(ctx: &Ctx, src: &mut Src) -> WorldResult {
     Ok(())
 }
 
-fn render_ascii(snap: &Snapshot) -> String {
+pub(crate) fn render_ascii(snap: &Snapshot) -> String {
     let mut out = String::new();
     for r in 0..snap.height() {
         out.push('|');
